@@ -15,7 +15,10 @@ constraint judged is the projection of the restriction object the solver receive
 Carve-outs: an assignment on which the PMS reading (a disabled conditional inside an any-of/^^/?? group is no
 member of it - what evaluate_depset+match implements) and the classical reading (implication - what the solver
 compiles) disagree is unspecified: it may or may not be produced.  Domain: forced-on and forced-off are
-disjoint, forced-on flags are in IUSE.
+disjoint; they may reach outside IUSE (profile use.force), where "outside IUSE is off" wins - the documented
+contract of the iuse parameter ("Any USE flag encountered not in this set, will be forced to a False value").
+The export also holds a nesting family over 3 flags: a (negated) conditional as a member of a group of every
+kind, at depth 1 and 2, x every IUSE subset x one forced flag inside / outside IUSE.
 """
 from pylib import tlc
 from pylib.common import rng, use_repo
@@ -74,7 +77,8 @@ def run(ck):
                "distinct (constraint, iuse, forced, preferred) whose constraint has a group or conditional and whose "
                "candidate space has at least 2 assignments")
     ck.assumptions = [
-        "force_true and force_false are disjoint and force_true is inside IUSE (domain of the property)",
+        "force_true and force_false are disjoint (domain of the property); a forced-on flag outside IUSE stays off "
+        "(documented contract of the iuse parameter)",
         "an assignment is identified with the set of flags mapped to True",
         "assignments on which the PMS and the classical reading of a conditional inside ||/^^/?? differ are not judged",
     ]
@@ -121,6 +125,9 @@ def run(ck):
             r_.shuffle(rest)
             nft = r_.randint(0, min(2, len(rest)))
             ft = rest[:nft]
+            outside = [f for f in flags if f not in iuse]
+            if outside and r_.random() < 0.4:  # profile-style use.force of a flag the package does not have
+                ft = ft + [r_.choice(outside)]
             ff = [f for f in flags if f not in ft and r_.random() < 0.25]
             pt = [f for f in flags if r_.random() < 0.4]
             ev = solve(api, solver, base + len(events), text, iuse, ft, ff, pt)
